@@ -60,6 +60,16 @@ class C07(Prop):
         corpus = ["M0,0 Q10,0 10,10 T20,20 t5,5", "M0,0 C1,2 7,4 10,0 S20,0 30,10 s1,1 2,2", "M1,1 L5,5 z l1,1 Z h3 v-2 z",
                   "M0,0 a5,3 20 0 1 10,10 A 1,1 0 1 0 30,30 z", "m5,5 q1,1 2,0 t2,0 T 10,10 z M 3,3 L 4,4", "M0,0 L1,1 Z L5,5 L5,0 Z",
                   "M100,200 C100,100 250,100 250,200 S400,300 400,200", "M0,0 A 191.4 2.246 159.9 1 1 5000,60"]
+        # corner nodes: a curve whose first control point is its start point (retracted handle), after every kind of
+        # predecessor - the writer may use S/T only where re-reading gives the same control point back
+        prevs = {"C": "C1,2 7,4 10,0", "Q": "Q5,5 10,0", "L": "L10,0", "A": "A5,5 0 0 1 10,0", "M": "", "S": "C1,2 7,4 8,0 S9,3 10,0",
+                 "T": "Q2,2 5,0 T10,0"}
+        for pk, ptxt in prevs.items():
+            cur = "10,0" if ptxt else "0,0"
+            for nxt in ("C%s 20,5 30,10" % cur, "Q%s 20,10" % cur, "C%s 20,5 30,10 C30,10 35,20 40,0" % cur, "Q%s 20,10 Q20,10 30,0" % cur):
+                corpus.append("M0,0 %s %s" % (ptxt, nxt))
+        corpus += ["m0,0 c1,2 7,4 10,0 c0,0 10,5 20,10", "m0,0 c1,2 7,4 10,0 q0,0 10,10", "m1,1 q5,5 10,0 c0,0 10,5 20,10 z",
+                   "M0,0 C1,2 10,0 10,0 C10,0 20,5 30,10", "M0,0 C1,2 10,0 10,0 Q10,0 20,10"]
         for d in corpus:
             yield {"d": d, "M": None}
         n = 400 if tier == "quick" else 25000
